@@ -703,7 +703,7 @@ func TestVerif_C27_Lists(t *testing.T) {
 	vk.Assume("rounds <= 300: the balance round is genesis (lookback 320) and heartbeat challenges (interval 1000) are inactive")
 	small := c27RegisterProto(t, "c27-small-lists", protocol.ConsensusFuture, func(p *config.ConsensusParams) {
 		p.MaxProposedExpiredOnlineAccounts = 3
-		p.Payouts.MaxMarkAbsent = 2
+		p.Payouts.MaxMarkAbsent = 1 // two simultaneously absent accounts are enough to exceed it with justified entries only
 	})
 	protos := []protocol.ConsensusVersion{protocol.ConsensusFuture, protocol.ConsensusFuture, small, small, protocol.ConsensusCurrentVersion}
 	rapid.Check(t, func(rt *rapid.T) {
